@@ -1,6 +1,6 @@
 CONSTANTS
 Mutant = 0
-Points = {"resolver", "picker", "quota", "write", "recv", "recvmid", "handler"}
+Points = {"resolver", "picker", "quota", "write", "recv", "recvmid", "backoff", "handler"}
 Delays = {"none", "pick", "quota"}
 Deadlines = {1, 999, 50000000, 50000001, 99999999, 100000000, 100000001, 399999999, 400000000, 400000001, 400000999, 400001000, 1000000000, 1000000001, 1000000999, 1500000500, 1800000000}
 Cancels = {1, 299999999, 300000001, 700000000, 1000000000}
